@@ -303,3 +303,26 @@ func (c *Ctx) Finish(kf KnownFile) Result {
 	r.Findings = c.Findings
 	return r
 }
+
+// Import merges the findings of the given rules of another property's run (same program) into c,
+// renaming the rule ids to "<prefix>.<id>" so that they count as obligations of this property too.
+func (c *Ctx) Import(sub *Ctx, prefix string, rules ...string) {
+	want := map[string]bool{}
+	for _, r := range rules {
+		want[r] = true
+	}
+	if c.mins == nil {
+		c.mins = map[string]int{}
+	}
+	for id, n := range sub.mins {
+		if want[id] {
+			c.mins[prefix+"."+id] = n
+		}
+	}
+	for _, f := range sub.Findings {
+		if want[f.Rule] {
+			f.Rule = prefix + "." + f.Rule
+			c.Findings = append(c.Findings, f)
+		}
+	}
+}
